@@ -64,13 +64,21 @@ class Sender(object):
         return 'Sender(%s)' % self.name
 
 
+class EmptySender(Sender):
+    """A sender that is falsy (an empty container-like object, e.g. a view without items): a sender
+    filter is compared with the emitting sender, never tested for truth."""
+
+    def __len__(self):
+        return 0
+
+
 class World(object):
     """A real EventEmitter with recording callbacks and the contexts entered so far."""
 
     def __init__(self):
         from phylib.utils.event import EventEmitter
         self.em = EventEmitter()
-        self.senders = {n: Sender(n) for n in SENDERS}
+        self.senders = {n: (EmptySender(n) if n == 'B' else Sender(n)) for n in SENDERS}
         self.senders['none'] = None   # an emit without a sender object
         self.log = []
         self.cms = []
